@@ -75,6 +75,7 @@
     the model answers `unmodelled` for them, so they never reach `Key.unmarshal b = .ok k`.
 -/
 import CoseProofs.Deep.RoundTrip
+import CoseProofs.Lemmas.TagScan
 import CoseProofs.Deep.Keys
 open CoseModel
 
@@ -1561,7 +1562,10 @@ theorem marshal_bytes {k : Key} (hk : KeyFlat k) (b : Bytes) :
 theorem unmarshal_bytes {m : GoMap} (hf : KMap m) (hok : LabelsOK m) (hlen : m.length ≤ maxElems) :
     Key.unmarshal (kMapWire m).bytes = Key.ofMap ((sortEntries m).map kNormEntry) := by
   obtain ⟨_, hp, hd⟩ := kmap_roundtrip encCfg hf hok hlen
-  simp only [Key.unmarshal, hp true, hd]
+  have htag := isTagByte_of_parse_map (hp true)
+  have hscan : ensureUntaggedHeaderLabels (kMapWire m).bytes none = true :=
+    ensureUntagged_of_parse_false none (hp false)
+  simp only [Key.unmarshal, htag, hscan, Bool.false_eq_true, if_false, Bool.not_true, hp true, hd]
 
 end KeyRT
 
@@ -2030,14 +2034,17 @@ theorem unmarshal_inv (b : Bytes) (k : Key) (h : Key.unmarshal b = .ok k) :
   unfold Key.unmarshal at h
   split at h
   · cases h
+  split at h
+  · cases h
   · rename_i w kvs hp
+    split at h
+    · cases h
     split at h
     · rename_i tmp hd
       exact ⟨w, kvs, tmp, hp, hd, h⟩
     · cases h
     · cases h
     · cases h
-  · cases h
   · cases h
 
 /-- the generic decoder refuses duplicate keys: the decoded entries are pairwise different -/
@@ -2602,7 +2609,11 @@ theorem ofMap_fields (tmp : GoMap) (k : Key) (h : Key.ofMap tmp = .ok k) :
               rw [h3] at ha
               cases v <;> try (exact absurd rfl ha)
               case int kd a =>
-                cases kd <;> first | (exact absurd rfl ha) | rfl
+                cases kd <;> first
+                  | (exact absurd rfl ha)
+                  | (by_cases ha0 : a = 0
+                     · simp [ha0, Lk.getD] at ha
+                     · simp [ha0, Lk.getD])
           · intro o ho
             simp only [] at ho
             cases h4 : tmp.lookup (lbl 4) with
